@@ -4,8 +4,8 @@
    every request under every fault plan EXCEPT a failing (not crashing) topics.owner write
    in the middle of an ownership transfer, which splits cache and store. *)
 From Coq Require Import ZArith NArith List Bool Lia.
-From Tinode Require Import Base.Util Pure.Acs Sys.Topic Sys.TopicTac Sys.TopicFrame Sys.TopicMarks Sys.TopicAcl
-  Sys.TopicAclProofs Sys.TopicAclInv Sys.TopicAclJoin.
+From Tinode Require Import Base.Util Pure.Acs Sys.Topic Sys.TopicTac Sys.TopicFrame Sys.TopicMarks Sys.TopicAclC07
+  Sys.TopicAclC07Proofs Sys.TopicAclC07Inv Sys.TopicAclC07Join.
 Import ListNotations.
 Open Scope Z_scope.
 
